@@ -16,6 +16,9 @@ vars == <<l, bad>>
 
 \* r.vals : values; r.eq[i][j] : BOOLEAN; r.cmp[i][j], r.pcmp[i][j] \in {-1,0,1};
 \* r.h1, r.h2 : hash classes under two hashers
+B(b, k) == IF b THEN 2 ^ k ELSE 0
+RelOf(c) == B(c # 0, 0) + B(c < 0, 1) + B(c <= 0, 2) + B(c > 0, 3) + B(c >= 0, 4) + 32 + 64 + 128
+
 Laws(r) ==
   LET n == Len(r.vals) I == 1..n IN
   /\ \A i, j \in I : r.eq[i][j] = (r.vals[i] = r.vals[j])             \* equality is structural
@@ -24,6 +27,8 @@ Laws(r) ==
   /\ \A i, j \in I : r.pcmp[i][j] = r.cmp[i][j]                         \* partial_cmp agrees
   /\ \A i, j, k \in I : (r.cmp[i][j] <= 0 /\ r.cmp[j][k] <= 0) => r.cmp[i][k] <= 0   \* transitive
   /\ \A i, j \in I : r.eq[i][j] => (r.h1[i] = r.h1[j] /\ r.h2[i] = r.h2[j])          \* hash respects equality
+  \* the derived operators say what cmp says: bit 0 ne, 1 lt, 2 le, 3 gt, 4 ge; 5 max, 6 min, 7 Object impls agree
+  /\ \A i, j \in I : r.rel[i][j] = RelOf(r.cmp[i][j])
 
 TrInit == l = 1 /\ bad = <<>>
 TrNext == /\ l <= Len(Rec)
